@@ -89,8 +89,8 @@ Check C17_tree_hash_from_bytes_sha256 :
   tree_hash_from_bytes sha256 fuel bs = FOk (th sha256 t).
 Print Assumptions C17_tree_hash_from_bytes_sha256.
 Check C17_tree_hash_from_bytes_rejects :
-  forall (H : bytes -> bytes) bs fuel,
-  deser_br bs = DErr -> tree_hash_from_bytes H fuel bs = FErr.
+  forall (H : bytes -> bytes), table_ok H ->
+  forall bs fuel, deser_br bs = DErr -> tree_hash_from_bytes H fuel bs = FErr.
 Print Assumptions C17_tree_hash_from_bytes_rejects.
 Check C17_tree_hash_from_bytes_no_panic :
   forall (H : bytes -> bytes), table_ok H ->
@@ -102,14 +102,30 @@ Print Assumptions C17_deser_br_total.
 Check C17_deser_br_extends_plain :
   forall bs t rest, deser bs = Some (t, rest) -> deser_br bs = DOk t.
 Print Assumptions C17_deser_br_extends_plain.
-Check C17_backrefs_heap_refines_tree :
+Check C17_backrefs_vec_refines_tree :
   forall bs,
   match deser_br bs, node_from_bytes_backrefs bs with
-  | DOk t, DOk (h, n) => wf h /\ valid h n /\ den h n = t
+  | DOk t, DOk (h, n) =>
+      wf h /\ valid h n /\ den h n = t /\ (length (h_pairs h) <= 2 * debr_fuel bs)%nat
   | DErr, DErr => True
   | _, _ => False
   end.
-Print Assumptions C17_backrefs_heap_refines_tree.
+Print Assumptions C17_backrefs_vec_refines_tree.
+Check C17_backrefs_conslist_refines_tree :
+  forall bs,
+  match deser_br bs, node_from_bytes_backrefs_old bs with
+  | DOk t, DOk (h, n) =>
+      wf h /\ valid h n /\ den h n = t /\ (length (h_pairs h) <= 2 * debr_fuel bs)%nat
+  | DErr, DErr => True
+  | _, _ => False
+  end.
+Print Assumptions C17_backrefs_conslist_refines_tree.
+Check C17_tree_hash_from_bytes_via_conslist :
+  forall (H : bytes -> bytes), table_ok H ->
+  forall bs t fuel, deser_br bs = DOk t ->
+  (4 * length bs + 4 + 2 * node_count t <= fuel)%nat ->
+  tree_hash_from_bytes_old H fuel bs = FOk (th H t).
+Print Assumptions C17_tree_hash_from_bytes_via_conslist.
 Check C17_example_shared_heap_reachable_cache :
   wf ex_heap /\ valid ex_heap (NPair 2) /\
   (den ex_heap (NPair 2) = let p0 := Pair (Atom [x01; x02; x03]) (Atom [x05]) in Pair (Pair p0 p0) p0) /\
